@@ -22,7 +22,7 @@ Theorem C06_write : forall m st typ body,
          r_tail st' = r_tail st /\ r_slots st' = r_slots st) \/
       (1 <= typ /\ n <= cp / 8 /\ no_room cp (r_head st) (r_tail st) n = false /\ r = Ok 0 /\
          r_tail st' = r_tail st + rec_bytes n + wrap_pad cp (r_tail st) n /\
-         r_slots st' = r_slots st ++ pad_slots (r_tail st) (wrap_pad cp (r_tail st) n) 0 0 ++
+         r_slots st' = r_slots st ++ pad_slots (r_tail st) (wrap_pad cp (r_tail st) n) 0 (-1) ++
                        [mkSlot (r_tail st + wrap_pad cp (r_tail st) n) (rec_bytes n) (n + 8) typ body 0 0]) ).
 Proof. exact write_spec. Qed.
 Print Assumptions C06_write.
